@@ -7,6 +7,7 @@ CONSTANTS
   MaxDepth = 1
   LitSizes = {1, 2, 3, 5}
   ExprSizes = {1, 2, 4}
+  XKinds = {1, 2, 3}
   HandKinds = {0, 1}
   SideKs = {0, 1, 3}
   LeafSizes = {2, 4}
